@@ -17,6 +17,10 @@ No bound on N, G, the number of calls, or the length of the stream.
 * `par_order_binds_by_name_partial`   position k of what the loss object receives carries the value of the k-th ordered
                                   name, back-transformed exactly once iff log-scale — under the hypothesis that the
                                   loss object consumes the order `ABC.__init__` re-derives (`create_loss_consumer`).
+* `get_forgets_state`, `continue_reads_only_N_finalTol`, `genLoop_ignores_initial_dist`   histories on one ABC object: a fresh
+                                  `get_posterior_sample` reads nothing of the previous state (but `numParam`; `next_tol` is carried
+                                  over without `q`); a continued run reads exactly `N` and `final_tol` - the stored population
+                                  enters only through the trial stream (proposals `x`, kernel mixture `w2`).       (full)
    Full statement (for every loss object handed to `ABC`):
      -- theorem par_order_binds_by_name : ∀ tp ts, (trialBindings f log user paramList stateList tp ts x)[k]? = some (consumer k, value of consumer k)
    is FALSE of the code: `par_order_direct_loss_counterexample`.  `parOrderBy_binds_by_name` proves the proposed
@@ -765,5 +769,90 @@ example : runCalls [exGet, { exContinue with tol := .scalar (.fin 4) }] (State.i
   norm_num [runCalls, runCall, exGet, exContinue, exStream, getPosteriorSample,
     continuePosteriorSample, firstTol, ETol.le, checkArgs, genLoop, getTolerance, fillN,
     performGeneration, accepts, ltTol, State.init, maxL, Gen.dists]
+
+/-! ### what a call reads of the state left by the previous call (histories on one ABC object)
+
+`runCall` is a function of (the call's arguments, the previous `State`, the trial stream).  The two theorems below say
+exactly which part of the previous state matters.  The stored population `res` / `w` / `dist` is NOT among it: in the real
+code the proposals of a continued run are resampled from `res_old` with `w_old` and `w2 = Σ w_old·K(res_old; x)`; both
+are recorded per trial by the harness and reach the model as the fields `x`, `w2` of the trial stream. -/
+
+/-- the attributes of the ABC object that the property observes (everything but the harness-side `history`) -/
+def obs (s : State) : Nat × List Accepted × List ETol × Option ETol × Option Rat × Option Nat :=
+  (s.numParam, s.parts, s.tolerances, s.finalTol, s.nextTol, s.N)
+
+/-- the first tolerance of a call is the caller's, later ones are quantiles of distances produced in this very call:
+`self.dist` as left by the previous call is never read by the generation loop -/
+theorem genLoop_ignores_initial_dist (c : Call) (rerun : Bool) (k : Nat) (d1 d2 : List Rat) (s : List Trial) :
+    genLoop c rerun 0 k d1 s = genLoop c rerun 0 k d2 s := by
+  cases k with
+  | zero => simp [genLoop]
+  | succ k => simp only [genLoop, getTolerance_zero]
+
+/-- **A fresh `get_posterior_sample` forgets the previous run**: its result (all attributes, the history, the rest of
+the stream) is the same from any two previous states with the same number of parameters - `next_tol`, which a call
+without `q` does not assign, is carried over. -/
+theorem get_forgets_state (c : Call) (st1 st2 : State) (s : List Trial)
+    (hp : st1.numParam = st2.numParam) (hn : c.quant = false → st1.nextTol = st2.nextTol) :
+    getPosteriorSample c false st1 s = getPosteriorSample c false st2 s := by
+  cases hq : c.quant with
+  | true => simp [getPosteriorSample, hp, hq]
+  | false => simp [getPosteriorSample, hp, hq, hn hq]
+
+theorem getPosteriorSample_rerun_obs (c : Call) (st1 st2 : State) (s : List Trial)
+    (hp : st1.numParam = st2.numParam) (hn : c.quant = false → st1.nextTol = st2.nextTol) :
+    (getPosteriorSample c true st1 s).map (fun r => (obs r.1, r.2)) =
+    (getPosteriorSample c true st2 s).map (fun r => (obs r.1, r.2)) := by
+  unfold getPosteriorSample
+  simp only [if_true]
+  rw [genLoop_ignores_initial_dist c true c.G (st1.parts.map (·.dist)) (st2.parts.map (·.dist)) s]
+  by_cases hc : checkArgs c = true
+  · simp only [hc, Bool.not_true, Bool.false_eq_true, if_false]
+    cases hg : genLoop c true 0 c.G (st2.parts.map (·.dist)) s with
+    | error e => rfl
+    | ok r =>
+      obtain ⟨gens, s'⟩ := r
+      cases hl : gens.getLast? with
+      | none => simp [Except.map, hl]
+      | some last =>
+        cases hq : c.quant with
+        | true => simp [Except.map, obs, hp, hq, hl]
+        | false => simp [Except.map, obs, hp, hq, hn hq, hl]
+  · simp [hc, Except.map]
+
+/-- **A continued run reads of the previous state exactly `N` and `final_tol`** (its two asserts; plus `numParam`, and
+`next_tol` is carried over when the call has no `q`): from any two previous states that agree on these, whatever
+populations they hold, the same call on the same trial stream leaves the same observable attributes and the same rest of
+the stream. -/
+theorem continue_reads_only_N_finalTol (c : Call) (st1 st2 : State) (s : List Trial)
+    (hp : st1.numParam = st2.numParam) (hN : st1.N = st2.N) (hf : st1.finalTol = st2.finalTol)
+    (hn : c.quant = false → st1.nextTol = st2.nextTol) :
+    (continuePosteriorSample c st1 s).map (fun r => (obs r.1, r.2)) =
+    (continuePosteriorSample c st2 s).map (fun r => (obs r.1, r.2)) := by
+  unfold continuePosteriorSample
+  rw [hN, hf]
+  cases st2.N with
+  | none => rfl
+  | some n =>
+    cases st2.finalTol with
+    | none => rfl
+    | some ft =>
+      simp only []
+      by_cases hne : c.N ≠ n
+      · simp [hne, Except.map]
+      · simp only [hne, if_false]
+        cases firstTol c.tol with
+        | error e => rfl
+        | ok t0 =>
+          simp only []
+          by_cases hle : ETol.le t0 ft
+          · simp only [hle, if_true]
+            exact getPosteriorSample_rerun_obs c st1 st2 s hp hn
+          · simp [hle, Except.map]
+
+/-- the population a state holds does not matter to a continued run: a witness with two different populations -/
+example : (continuePosteriorSample exContinue { exState with parts := [] } []).map (fun r => (obs r.1, r.2)) =
+    (continuePosteriorSample exContinue exState []).map (fun r => (obs r.1, r.2)) :=
+  continue_reads_only_N_finalTol exContinue _ _ [] rfl rfl rfl (fun _ => rfl)
 
 end Pygom.C17
